@@ -15,6 +15,10 @@ PENDING = "check not built yet (implementation in progress); the design is in DE
 
 VPNOTE = 'Trusted: clang AST, the path engine, the fact language of sa/vp.py (what counts as a reducing producer / accepted test is listed there), buffer identity by carve expression; frozen per-function tables (point-validation level, accepted alternative forms) carry one reason each. Decides necessary structural conditions, not the numerical statements of the property.'
 CHECKS = {
+ "C07": dict(level="other",
+   text="Resource-bound analysis of the scratch-stack convention the property names first: for each of the ~140 functions with a `stack` parameter and a _deep companion, the octets the body carves by pointer arithmetic plus the largest demand of any callee that receives the remaining stack (recursively; calls through ring/curve descriptors demand that object's ->deep; objects built inside the stack contribute their creator's sizes) is compared with the value of F_deep on a grid of dimension tuples; the 8 creators are checked the other way round (every installed function fits into ->deep and the public _deep covers it); blob.c's allocation expression covers header + payload for all sizes 1..4199; only mem.c/blob.c call the allocator. Found and fixed 20 under-declared _deep functions. Absence of every out-of-bounds access for all inputs, region sizes inside a carve and _keep formulas of flexible states are not decided.",
+   design="4/C07", technique="resource-bound analysis: size formulas lifted from the AST and compared on a dimension grid",
+   note="Trusted: clang AST; the size evaluators of sa/sd.py (integer expressions only; data-dependent sizes replaced by their upper bound); formulas are monotone and piecewise linear with breakpoints inside the grid (n, m <= 12 quick / 40 thorough); three functions are frozen undecided (variadic ecAddMulA, priExtendPrime/2)."),
  "C14": dict(level="other",
    text="Information-flow analysis on the LLVM IR that clang 14 emits from the current tree (quick: -O2; thorough: -O1/-O2/-O3) for all 83 units: no conditional branch, switch or indirect branch condition depends on secret data in (G1) the 33 regular editions (discovered as the functions that also have a _fast twin), (G2) the nine verification steps, which must also compare through the regular memEq/memIsZero, and (G3) the ~75 entry points of the symmetric primitives; secrets are seeded only at entry points and the set of secret state fields (down to array sub-offsets) is inferred by a fixpoint. One compiler-specific finding (clang turns SAFE(memCmp)'s final mask into a branch) is listed as known; one genuine finding (branching carry of the secret CTR counter) was fixed. `SAFE equals FAST for all inputs' is a value statement and is declined.",
    design="4/C14", technique="taint / information-flow analysis on optimised LLVM IR with parametric function summaries",
